@@ -157,6 +157,20 @@ func gen(p protos.P, limit uint32, r *core.Rand, routes map[string]string, valid
 		v := []string{"-1", "0", "99999999999", "abc", "2147483647", fmt.Sprint(uint64(limit) + 1), "4294967296", "4294967297", "8589934592", fmt.Sprint(uint64(1)<<32 + uint64(limit)/2)}[r.Intn(10)]
 		b := []byte("POST " + routes["echo"] + " HTTP/1.1\r\nContent-Length: " + v + "\r\nContent-Type: text/plain\r\nX-Seq: 5\r\nX-Mtype: 1\r\n\r\nabc")
 		return input{Class: "http-content-length", Bytes: b, Oversz: len(v) >= 10 || v == fmt.Sprint(uint64(limit)+1)}
+	case x < 18 && p.HTTP && limit <= 1<<20 && r.Intn(4) == 0:
+		// header lines and announced body each within the limit, the message as a whole above it: h + b > limit
+		// (h, b at 55-95 % of the limit); the body is withheld, partly sent or sent in full
+		h := int(limit) * (55 + r.Intn(40)) / 100
+		bl := int(limit) * (55 + r.Intn(40)) / 100
+		var hb bytes.Buffer
+		hb.WriteString("POST " + routes["echo"] + " HTTP/1.1\r\nContent-Type: text/plain\r\nX-Seq: 5\r\nX-Mtype: 1\r\n")
+		for i := 0; hb.Len() < h; i++ {
+			fmt.Fprintf(&hb, "X-H%d: %s\r\n", i, strings.Repeat("v", 40))
+		}
+		fmt.Fprintf(&hb, "Content-Length: %d\r\n\r\n", bl)
+		sent := []int{0, bl / 2, bl}[r.Intn(3)]
+		hb.Write(bytes.Repeat([]byte("b"), sent))
+		return input{Class: "http-headers-plus-body", Bytes: hb.Bytes(), Oversz: true}
 	case x < 18 && p.HTTP && limit <= 1<<20 && r.Intn(3) == 0:
 		b := append([]byte("POST /"), bytes.Repeat([]byte("a"), int(limit)*4)...)
 		return input{Class: "http-endless-line", Bytes: b, Oversz: true}
